@@ -95,8 +95,9 @@ def eval_observations(ck, lra, agg):
 
 def pcase_coq(c):
     ents = lambda bs: "[" + "; ".join("[" + "; ".join("(%s, %d%%N, %s)" % (zz(e["ts"]), e["fp"], zz(e["v"])) for e in (b or [])) + "]" for b in (bs or [])) + "]"
-    return "{| pc_id := %d; pc_zero := %s; pc_from := %d; pc_to := %d; pc_step := %d; pc_dur := %d; pc_in := %s; pc_out := %s |}" % (
-        c["id"], "true" if c["zero"] else "false", c["from_ns"], c["to_ns"], c["step_ns"], c["dur_ns"], ents(c["in"]), ents(c["out"]))
+    return "{| pc_id := %d; pc_zero := %s; pc_from := %d; pc_to := %d; pc_step := %d; pc_dur := %d; pc_sqlfrom := %d; pc_sqlto := %d; pc_in := %s; pc_out := %s |}" % (
+        c["id"], "true" if c["zero"] else "false", c["from_ns"], c["to_ns"], c["step_ns"], c["dur_ns"], c["sql_from_ns"], c["sql_to_ns"],
+        ents(c["in"]), ents(c["out"]))
 
 
 def zz(n):
@@ -150,7 +151,7 @@ def run_post(ck):
     size = lambda c: sum(len(b or []) for b in c["in"] or [])
     if viol:
         worst = min((byid[i] for i in viol), key=size)
-        ck.violation({"property": "C08", "part": "post-processors", "kind": "step-fixed matrix violates its specification (grid, order, zero-free, values from a covering window)",
+        ck.violation({"property": "C08", "part": "post-processors", "kind": "step-fixed matrix violates its specification (grid, order, zero-free, values from a covering window) or the window handed to the SQL is not made of whole range windows covering [from, to]",
                       "case": worst, "replay": "harness metricpost --cases <file with this case>"})
     elif mism:
         worst = min((byid[i] for i in mism), key=size)
